@@ -1124,6 +1124,8 @@ class WcParse(Generic[AnyStr]):
             if c == '[':
                 last_posix = self._handle_posix(i, result, end_range)
                 if last_posix:
+                    # A class cannot end a range: the hyphen before it has been made literal, the range is over
+                    end_range = 0
                     c = next(i)
                     continue
 
